@@ -15,7 +15,6 @@ structure Side where
   rejected : List Nat := []            -- ids of rejected writes
   gate : Bool := false                 -- a Shutdown call passed the state gate (result `called`)
   callAt : Nat := 0                    -- accepted writes at that moment
-  connClosed : Bool := false           -- the harness failed this side's transport
   sr : String := "-"
   reads : List (Nat Ã— Nat) := []       -- (stream, id) in the order read
   eofs : List Nat := []                -- streams on which closure was reported
@@ -38,8 +37,8 @@ def nm (x : Bool) : String := if x then "B" else "A"
 def natsStr (l : List Nat) : String := if l.isEmpty then "-" else ",".intercalate (l.map toString)
 
 def dump (ns : Nat) (e : Ep) : String :=
-  let sr := if e.sd == 0 then "-" else if e.sd == 1 then "w" else "ok"
-  s!"st={e.st} ws={bs e.wS} wa={bs e.wSA} wc={bs e.wSC} scp={bs e.scp} t2={e.t2} ack={e.ack} pn={e.snd.pend.length} if={e.inflight} cum={e.snd.cum} pl={e.rcv.pl} rq={natsStr (sortNat e.rcv.rq)} dead={bs e.dead} sr={sr} rx={e.rcv.store.length + e.rcv.rlog.length} re={if e.dead then ns else 0}"
+  let sr := if e.sd == 0 then "-" else if e.sd == 1 then "w" else if e.sd == 2 then "ok" else "err"
+  s!"st={e.st} ws={bs e.wS} wa={bs e.wSA} wc={bs e.wSC} scp={bs e.scp} scr={bs e.scr} ab={bs e.wAb} t2={e.t2} ack={e.ack} pn={e.snd.pend.length} if={e.inflight} cum={e.snd.cum} pl={e.rcv.pl} rq={natsStr (sortNat e.rcv.rq)} dead={bs e.dead} sr={sr} rx={e.rcv.store.length + e.rcv.rlog.length} re={if e.dead then ns else 0}"
 
 def chunkStr : Chunk â†’ String
   | .data t m s k => s!"D{t}.{m}.{s}.{k}"
@@ -49,6 +48,7 @@ def chunkStr : Chunk â†’ String
   | .shutdown c => s!"SD{c}"
   | .shutdownAck => "SA"
   | .shutdownComplete => "SC"
+  | .abort => "AB"
 
 def pktStr (p : Pkt) : String := ",".intercalate (p.map chunkStr)
 
@@ -82,7 +82,7 @@ def readsOn (p : Side) (s : Nat) : List Nat := (p.reads.filter (Â·.1 == s)).map 
 def orElse (a b : Option String) : Option String := match a with | some x => some x | none => b
 
 /-- P_C08, the part evaluated after EVERY line on the two state lines of the implementation:
-the first time a side reports `sr=ok` (Shutdown returned nil, transport of that side not failed by the harness)
+the first time a side reports `sr=ok` (Shutdown returned nil â€” whatever else happened: transport failure, Close, Abort)
 every message it accepted before the call must already be held for (or read by) the peer's application, the
 side must be closed, and a stream of the peer that already reported closure must have delivered everything. -/
 def predState (st : St) (x : Bool) (mine other : List (String Ã— String)) : St Ã— Option String :=
@@ -91,7 +91,7 @@ def predState (st : St) (x : Bool) (mine other : List (String Ã— String)) : St Ã
   let g (kv : List (String Ã— String)) (k : String) := (kv.lookup k).getD ""
   let sr := g mine "sr"
   let st' := st.setSide x { p with sr := sr }
-  if sr == "ok" && p.sr != "ok" && !p.connClosed && !st.forged then
+  if sr == "ok" && p.sr != "ok" && !st.forged then
     let rx := parseNat! (g other "rx")
     if !p.gate then (st', some s!"[C08] side {nm x}: Shutdown returned nil although no call had passed the state gate")
     else if rx < p.callAt then
@@ -205,17 +205,20 @@ def step (st : St) (op impl : List String) : St Ã— String Ã— Option String :=
         some s!"[C08,C18] side {nm x} stream {sid}: a message whose write was rejected was delivered"
       else if got != want.take got.length then
         some s!"[C08,C01] side {nm x} stream {sid}: messages read {got} are not a prefix of the messages written {want}"
-      else if closed && q.sr == "ok" && !q.connClosed && got != want then
+      else if closed && q.sr == "ok" && got != want then
         some s!"[C08] side {nm x} stream {sid}: closure reported after {got.length} of {want.length} messages although Shutdown had returned nil on the other side"
       else none
     fin (st.setSide x p) s!"r={natsStr new} {if e'.dead then "eof" else "-"}" v
   | ["closeconn", x] =>
     let x := side x
     let was := (st.s.ep x).dead
-    let p := st.side x
-    -- a transport failure only matters for the predicate if it comes before the return of Shutdown
-    let p := if p.sr != "ok" then { p with connClosed := true } else p
-    fin ({ st with s := st.s.step (.closeConn x) }.setSide x p) (if was then "already" else "ok") none
+    fin { st with s := st.s.step (.closeConn x) } (if was then "already" else "ok") none
+  | ["close", x] =>
+    let x := side x
+    let was := (st.s.ep x).dead
+    fin { st with s := st.s.step (.closeApi x) } (if was then "already" else "ok") none
+  | ["abort", x] =>
+    fin { st with s := st.s.step (.abort (side x)) } "called" none
   | ["fin", k] =>
     let g (kv : List (String Ã— String)) (key : String) := (kv.lookup key).getD ""
     let v :=
